@@ -1983,6 +1983,8 @@ func (interp *Interpreter) cfg(root *node, sc *scope, importPath, pkgName string
 			c := n.lastChild()
 			n.findex = c.findex
 			n.level = c.level
+			n.val = c.val
+			n.recv = c.recv
 			n.typ = c.typ
 			n.rval = c.rval
 
